@@ -51,6 +51,7 @@ class NativeCase:
         self.stubs = {}
         self.params = {}
         self.described = {}
+        self.maps = {}
 
     # ------------------------------------------------------------------ symbolic setup (same as verification)
     def setup(self):
@@ -184,6 +185,20 @@ class NativeCase:
             self.bind_value(const, v)
             self.described[fname] = ('lambda ctx: %r' % (v,)) if callable_ else v
             return (lambda ctx, _v=v: _v) if callable_ else v
+        if type(fv).__name__ == 'VMap' and getattr(fv, 'values', None) in ('int', 'dyn') and self.c.qual.endswith('._encode'):
+            # (encode side only: there the supplied object may be anything; the decode contracts are stated for the integers the wrapped
+            # field yields and for result containers this evaluator does not represent faithfully)
+            # a label table of the construct: a small real dict; the uninterpreted map functions of the contract are read off it
+            labels = ['a', 'b', 'zz', '_x']
+            if rng.random() < 0.3:
+                d = {rng.choice([0, 1, 2, 7]): rng.choice(labels) for _ in range(rng.randint(0, 3))}
+            else:
+                d = {lab: rng.choice([0, 1, 2, 3, 7, 128]) for lab in rng.sample(labels, rng.randint(0, 3))}
+            mid = 900 + len(self.maps)
+            self.maps[mid] = d
+            env[self.name_of(fv.ident)] = mid
+            self.described[fname] = d
+            return dict(d)
         if isinstance(fv, VBytes):
             n = fv.len.args[0] if fv.len.op == 'int' else rng.randint(0, 3)
             b = bytes(rng.choice([0, 0, 32, 255, rng.randint(0, 255)]) for _ in range(n))
@@ -228,6 +243,9 @@ class NativeCase:
                     open(v, 'wb').write(b'\x00\x01\x02\x03')
                 else:
                     v = rand_value(rng)
+                    if rng.random() < 0.15 and hasattr(getattr(self.C, 'core', None), 'EnumIntegerString'):
+                        # a label object as Enum.parse returns it (a str carrying an integer): the label counts, not the carried integer
+                        v = self.C.core.EnumIntegerString.new(rng.choice([0, 1, 2, 7]), rng.choice(['a', 'b', 'zz', 'seven']))
                 env[nm] = val_of(v)
                 self.described[fname] = v
                 return v
@@ -321,6 +339,7 @@ class NativeCase:
             'ev_val': lambda ev, p, H, D, c: val_of(self.params[p]),
             'ev_raises': lambda ev, p, H, D, c: False,
             'tostr': lambda ev, v: str(py_of(v)),
+            'map_has': lambda ev, m, k: _map_has(self.maps, m, k), 'map_get': lambda ev, m, k: _map_get(self.maps, m, k),
             'f_dec': self.f_dec, 'f_packable': self.f_packable,
         }
         return f
@@ -503,6 +522,27 @@ class HeapStub(dict):
 
 
 HEAP = HeapStub()
+
+
+def _map_key(k):
+    try:
+        pk = py_of(k)
+        hash(pk)
+        return True, pk
+    except Exception:
+        return False, None
+
+
+def _map_has(maps, m, k):
+    ok, pk = _map_key(k)
+    return ok and m in maps and pk in maps[m]
+
+
+def _map_get(maps, m, k):
+    ok, pk = _map_key(k)
+    if ok and m in maps and pk in maps[m]:
+        return val_of(maps[m][pk])
+    return ('VNone',)
 
 
 def search(contract, src, C, rng, budget, model='bytesio', seconds=25, prefer=None):
